@@ -83,7 +83,7 @@ func c29Param(p *proto.Parameter) string {
 	case *proto.Parameter_S:
 		v = "(PS " + c29B([]byte(x.S)) + ")"
 	}
-	return fmt.Sprintf("{| p_value := %s; p_name := %s |}", v, c29B([]byte(p.GetName())))
+	return fmt.Sprintf("(Build_param %s %s)", v, c29B([]byte(p.GetName())))
 }
 
 func c29Stmt(s *proto.Statement) string {
@@ -91,7 +91,7 @@ func c29Stmt(s *proto.Statement) string {
 	for i, p := range s.GetParameters() {
 		ps[i] = c29Param(p)
 	}
-	return fmt.Sprintf("{| s_sql := %s; s_params := %s; s_force_query := %s; s_force_stall := %s; s_explain := %s |}",
+	return fmt.Sprintf("(Build_stmt %s %s %s %s %s)",
 		c29B([]byte(s.GetSql())), coqList(ps), coqBool(s.GetForceQuery()), coqBool(s.GetForceStall()), coqBool(s.GetSqlExplain()))
 }
 
@@ -122,12 +122,12 @@ func c29Request(r *proto.Request) string {
 	if len(parts) > 0 {
 		ssAll = "(" + strings.Join(parts, " ++ ") + ")"
 	}
-	return fmt.Sprintf("(Some {| r_tx := %s; r_stmts := %s; r_timeout := %s; r_rollback := %s; r_qualify := %s |})",
+	return fmt.Sprintf("(Some (Build_request %s %s %s %s %s))",
 		coqBool(r.GetTransaction()), ssAll, coqZ(r.GetDbTimeout()), coqBool(r.GetRollbackOnError()), coqBool(r.GetQualifyColumns()))
 }
 
 func c29Qreq(r *proto.Request, timings bool, level proto.ConsistencyLevel, fresh int64, strict bool, lin int64) string {
-	return fmt.Sprintf("{| q_request := %s; q_timings := %s; q_level := %s; q_freshness := %s; q_strict := %s; q_lin_timeout := %s |}",
+	return fmt.Sprintf("(Build_qreq %s %s %s %s %s %s)",
 		c29Request(r), coqBool(timings), coqN(uint64(level)), coqZ(fresh), coqBool(strict), coqZ(lin))
 }
 
@@ -138,11 +138,11 @@ func c29Body(kind string, m pb.Message) string {
 	case *proto.ExecuteQueryRequest:
 		return "(BExecQuery " + c29Qreq(x.Request, x.Timings, x.Level, x.Freshness, x.FreshnessStrict, x.LinearizableTimeout) + ")"
 	case *proto.ExecuteRequest:
-		return fmt.Sprintf("(BExecute {| e_request := %s; e_timings := %s |})", c29Request(x.Request), coqBool(x.Timings))
+		return fmt.Sprintf("(BExecute (Build_ereq %s %s))", c29Request(x.Request), coqBool(x.Timings))
 	case *proto.LoadRequest:
 		return "(BLoad " + c29B(x.Data) + ")"
 	case *proto.LoadChunkRequest:
-		return fmt.Sprintf("(BLoadChunk {| lc_stream := %s; lc_seq := %s; lc_last := %s; lc_data := %s; lc_abort := %s |})",
+		return fmt.Sprintf("(BLoadChunk (Build_lchunk %s %s %s %s %s))",
 			c29B([]byte(x.StreamId)), coqZ(x.SequenceNum), coqBool(x.IsLast), c29B(x.Data), coqBool(x.Abort))
 	case *proto.Noop:
 		return "(BNoop " + c29B([]byte(x.Id)) + ")"
@@ -194,7 +194,8 @@ func c29Gunzip(b []byte) ([]byte, error) {
 // ---------------------------------------------------------------- one case
 
 type c29Env struct {
-	s *Store
+	s            *Store
+	total, lost  int // cases run / cases whose request never reached the log
 }
 
 // send the message through the store and return the log entry it wrote
@@ -260,9 +261,38 @@ func c29Run(w *vWriter, e *c29Env, in c29Input) {
 			c.OracleFail, c.Sig = msg, sig
 		}
 	}
+	e.total++
+	// An entry that the receiving side cannot decode (or decodes as another type) panics in the FSM goroutine and kills
+	// the whole test process.  So that the failing input is still reported, a provisional verdict is written and flushed
+	// before the request is sent, and taken back when the store survived it.
+	w.mu.Lock()
+	w.w.Flush()
+	off, _ := w.f.Seek(0, io.SeekCurrent)
+	w.mu.Unlock()
+	w.Emit(VCase{Input: in, Key: c.Key, OracleFail: "the process died while this " + in.Kind + " request was written to the log and applied (the entry could not be decoded as what was sent)",
+		Sig: "C29:entry-kills-receiver:" + in.Kind})
+	w.mu.Lock()
+	w.w.Flush()
+	w.mu.Unlock()
+	retract := func() {
+		w.mu.Lock()
+		w.w.Flush()
+		w.f.Truncate(off)
+		w.f.Seek(off, io.SeekStart)
+		w.next--
+		w.mu.Unlock()
+	}
 	entry, err := e.send(in, sent)
+	retract()
+	for try := 0; err != nil && try < 3; try++ {
+		// no entry was written (lost leadership on a starved machine, apply timeout...): not a statement about encoding
+		e.s.WaitForLeader(10 * time.Second)
+		sent = pb.Clone(orig)
+		entry, err = e.send(in, sent)
+	}
 	if err != nil {
-		fail("sending the request: "+err.Error(), "C29:request-not-logged:"+in.Kind)
+		e.lost++
+		c.Inconcl = "the request was not written to the log: " + err.Error()
 		w.Emit(c)
 		return
 	}
@@ -310,15 +340,45 @@ func c29Run(w *vWriter, e *c29Env, in c29Input) {
 	}
 
 	// ---- the model
-	gz := c29Gzip(raw)
-	if cmd.Compressed {
-		gz = cmd.SubCommand // what the real marshaler produced
-	} else if in.Kind == "load" {
-		gz = cmd.SubCommand
+	// (the Gallina term shares the long literals: raw, gz, and the entry written as prefix ++ sub-command ++ suffix)
+	attempted := false
+	if r, ok := orig.(command.Requester); ok {
+		ss := r.GetRequest().GetStatements()
+		attempted = len(ss) >= in.Batch
+		for _, s := range ss {
+			attempted = attempted || len(s.Sql) >= in.Size
+		}
 	}
-	c.Coq = fmt.Sprintf("{| k_cfg := {| m_batch := %s; m_size := %s; m_force := %s |}; k_body := %s; k_gz := %s; o_raw := %s; o_entry := %s; o_type := %s; o_compressed := %s; o_sub := %s |}",
-		coqZ(int64(in.Batch)), coqZ(int64(in.Size)), coqBool(in.Force), c29Body(in.Kind, orig), c29B(gz), c29B(raw), c29B(entry),
-		coqN(uint64(cmd.Type)), coqBool(cmd.Compressed), c29B(cmd.SubCommand))
+	gzTerm, subVar := "[]", "raw"
+	switch {
+	case cmd.Compressed || in.Kind == "load":
+		gzTerm, subVar = c29B(cmd.SubCommand), "gz" // what the real marshaler produced
+	case attempted:
+		// compression was tried and dropped: ask the real marshaler (forced) what its gzip made of these bytes
+		fm := *e.s.reqMarshaller
+		fm.ForceCompression = true
+		if g, z, err := fm.Marshal(orig.(command.Requester)); err == nil && z {
+			gzTerm = c29B(g)
+			if len(g) < len(raw) {
+				fail(fmt.Sprintf("compression dropped although it makes the entry smaller (%d < %d bytes)", len(g), len(raw)), "C29:smaller-but-not-compressed")
+			}
+		} else {
+			gzTerm = c29B(c29Gzip(raw))
+		}
+	}
+	sub := raw
+	if subVar == "gz" {
+		sub = cmd.SubCommand
+	}
+	subTerm, entryTerm := subVar, c29B(entry)
+	if !bytes.Equal(sub, cmd.SubCommand) {
+		subTerm = c29B(cmd.SubCommand) // not what the model will predict: say so literally
+	} else if i := bytes.Index(entry, sub); i >= 0 && len(sub) > 0 {
+		entryTerm = "(" + c29B(entry[:i]) + " ++ " + subVar + " ++ " + c29B(entry[i+len(sub):]) + ")"
+	}
+	c.Coq = fmt.Sprintf("(let raw := %s in let gz := %s in Build_case (Build_mcfg %s %s %s) %s gz raw %s %s %s %s)",
+		c29B(raw), gzTerm, coqZ(int64(in.Batch)), coqZ(int64(in.Size)), coqBool(in.Force), c29Body(in.Kind, orig), entryTerm,
+		coqN(uint64(cmd.Type)), coqBool(cmd.Compressed), subTerm)
 
 	// ---- evidence bookkeeping
 	c.Tags = []string{"type=" + in.Kind, fmt.Sprintf("compressed=%v", cmd.Compressed)}
@@ -340,10 +400,6 @@ func c29Run(w *vWriter, e *c29Env, in c29Input) {
 		if near {
 			c.Tags = append(c.Tags, "near-a-threshold")
 		}
-		attempted := len(ss) >= in.Batch
-		for _, s := range ss {
-			attempted = attempted || len(s.Sql) >= in.Size
-		}
 		if attempted && !cmd.Compressed {
 			c.Tags = append(c.Tags, "compression-tried-and-dropped")
 		}
@@ -355,8 +411,16 @@ func c29Run(w *vWriter, e *c29Env, in c29Input) {
 	if in.Force {
 		c.Tags = append(c.Tags, "forced")
 	}
+	if strings.HasPrefix(in.Note, "gzip length - raw length") {
+		c.Tags = append(c.Tags, "gzip-length-boundary")
+	}
 	c.Nontrivial = near || allKinds
 	w.Emit(c)
+	// an entry that the receiving side cannot decode panics in the FSM and kills the test process:
+	// keep what has been observed so far
+	w.mu.Lock()
+	w.w.Flush()
+	w.mu.Unlock()
 }
 
 // ---------------------------------------------------------------- generators
@@ -544,19 +608,33 @@ func TestVerif_C29(t *testing.T) {
 		c29Run(w, e, c29Input{Kind: kind, Batch: batch, Size: size, Force: force, Msg: b, Note: note})
 	}
 
-	// hand-picked: the default thresholds (512 statements / 4096 bytes), each side of each
-	for _, kind := range []string{"execute", "query", "request"} {
+	// hand-picked: the default thresholds (512 statements / 4096 bytes), each side of each.  These cases are big;
+	// they are spread over the run (one every 20 generated cases) so that they land in different model shards.
+	var bigs []func()
+	for ki, kind := range []string{"execute", "query", "request"} {
+		// the realistic sizes (default thresholds) for one API in the quick tier, for all three in the thorough tier
+		big := vTier() == "thorough" || int(vSeed())%3 == ki
 		for _, n := range []int{511, 512, 513} {
+			if !big {
+				break
+			}
 			r := &proto.Request{}
 			for i := 0; i < n; i++ {
 				r.Statements = append(r.Statements, &proto.Statement{Sql: fmt.Sprintf("INSERT INTO foo(id) VALUES(%d)", i/200)})
 			}
-			emit(kind, 512, 4096, false, c29Wrap(kind, r), fmt.Sprintf("statements=%d default thresholds", n))
+			kind, r, n := kind, r, n
+			bigs = append(bigs, func() { emit(kind, 512, 4096, false, c29Wrap(kind, r), fmt.Sprintf("statements=%d default thresholds", n)) })
 		}
 		for _, l := range []int{4095, 4096, 4097} {
+			if !big {
+				break
+			}
 			for _, compressible := range []bool{true, false} {
 				r := &proto.Request{Statements: []*proto.Statement{{Sql: c29Text(rng, l, compressible)}}}
-				emit(kind, 512, 4096, false, c29Wrap(kind, r), fmt.Sprintf("sql=%d default thresholds compressible=%v", l, compressible))
+				kind, r, l, compressible := kind, r, l, compressible
+				bigs = append(bigs, func() {
+					emit(kind, 512, 4096, false, c29Wrap(kind, r), fmt.Sprintf("sql=%d default thresholds compressible=%v", l, compressible))
+				})
 			}
 		}
 		// every parameter kind, no threshold reached
@@ -567,8 +645,29 @@ func TestVerif_C29(t *testing.T) {
 	}
 	emit("load", 512, 4096, false, &proto.LoadRequest{Data: c29SQLiteFile(t, 3)}, "small database")
 
+	// the exact boundary of "smaller": requests whose gzip output is one byte shorter than, as long as, and one byte
+	// longer than the uncompressed encoding (found by search; compression attempted because of the size threshold)
+	{
+		found := map[int]int{}
+		for try := 0; try < 20000 && (found[-1] < 3 || found[0] < 3 || found[1] < 3); try++ {
+			l := 30 + rng.Intn(400)
+			al := 2 + rng.Intn(60)
+			sb := make([]byte, l)
+			for i := range sb {
+				sb[i] = byte(48 + rng.Intn(al))
+			}
+			m := &proto.ExecuteRequest{Request: &proto.Request{Statements: []*proto.Statement{{Sql: string(sb)}}}}
+			raw, _ := pb.Marshal(m)
+			d := len(c29Gzip(raw)) - len(raw)
+			if d >= -1 && d <= 1 && found[d] < 3 {
+				found[d]++
+				emit("execute", 512, 20, false, m, fmt.Sprintf("gzip length - raw length = %d", d))
+			}
+		}
+	}
+
 	// generated requests with small thresholds, so that both are crossed often and entries stay small
-	n := vN(260, 6000)
+	n := vN(200, 6000)
 	kinds := []string{"execute", "query", "request", "execute", "query", "request", "noop", "loadchunk"}
 	for i := 0; i < n; i++ {
 		kind := kinds[i%len(kinds)]
@@ -576,6 +675,16 @@ func TestVerif_C29(t *testing.T) {
 		size := []int{24, 40, 64, 200}[rng.Intn(4)]
 		m, note := c29Gen(rng, kind, batch, size)
 		emit(kind, batch, size, rng.Intn(8) == 0, m, note)
+		if i%20 == 0 && len(bigs) > 0 {
+			bigs[0]()
+			bigs = bigs[1:]
+		}
+	}
+	for _, f := range bigs {
+		f()
+	}
+	if e.lost*10 > e.total {
+		t.Fatalf("%d of %d requests never reached the log: the check did not run", e.lost, e.total)
 	}
 	if vTier() == "thorough" {
 		for _, rows := range []int{0, 40, 400} {
